@@ -34,6 +34,8 @@ UNITS = [
     ("pound", F(45359237, 100000), {"gram": 1}),
     ("fpm", F(1), {"foot": 1, "minute": -1}),
     ("sqyd", F(1), {"yard": 2}),
+    ("lap", F(400), {"meter": 1}),
+    ("laps", F(2), {"lap": 1}),      # also the plural of "lap": two prefix-less readings of the name
 ]
 HERTZ_R1 = ("hertz", F(1), {"second": -1})
 HERTZ_R2 = ("hertz", F(1), {"[F]": 1})
@@ -59,6 +61,9 @@ CTX = {
         redefs=[("yard", F(2), {"foot": 1})]),
     "rd": dict(defaults={}, rules=[("[M]", "[L]", F(7), None, {"meter": 1, "gram": -1})],
                redefs=[("yard", F(4), {"foot": 1}), ("foot", F(2), {"second": 1}), ("minute", F(20), {"second": 1})]),
+    # invalid redefinition whose failure is not a ValueError: "laps" has two readings, so
+    # _redefine trips `assert len(candidates_no_prefix) == 1` (AssertionError)
+    "re": dict(defaults={}, rules=[], redefs=[("yard", F(5), {"foot": 1}), ("laps", F(3), {"lap": 1})]),
     "rs": dict(defaults={"k": F(2)}, rules=[("[F]", "[L]", F(1), ("k", True), {"meter": 1, "hertz": -1})],
                redefs=[]),
 }
@@ -263,6 +268,7 @@ PROBES = [
     ("root", U(sqyd=1)),
     ("root", U(fpm=1)),
     ("root", U(smoot=1)),
+    ("root", U(laps=1)),
     ("parse", "foot"),
     ("parse", "smoot"),
 ]
@@ -300,6 +306,8 @@ def errclass(e):
         return "EKey"
     if isinstance(e, ZeroDivisionError):
         return "EZero"
+    if isinstance(e, AssertionError):
+        return "EAssert"
     if isinstance(e, ValueError):
         return "EValue"
     return "EOther"
@@ -447,6 +455,9 @@ class World:
 
 
 # ------------------------------------------------------------------ property oracles (real registry only)
+STRICT_LAYERS = [True]     # cleared by detect_quirks on a tree that rebuilds overlays on a cache hit (F110)
+
+
 class Oracle:
     """Decides the C12 statement on one run of the real registry: the active stack equals the
     stack the operations imply; answers after a context has been left equal those before entry;
@@ -490,9 +501,9 @@ class Oracle:
         o0, o1 = ob0["regs"][r], ob1["regs"][r]
         if k in ("en", "with"):
             if out[0] == "failed":
-                # public observables only: the active contexts and the answers (the number of
-                # ChainMap layers is compared with the model, it is not part of the statement)
-                changed = [c for c in ("active", "answers") if o0[c] != o1[c] and o0[c] is not None and o1[c] is not None]
+                # whatever was raised: active stack, unit-table layers and answers must be as before
+                comps = ("active", "layers", "answers") if STRICT_LAYERS[0] else ("active", "answers")
+                changed = [c for c in comps if o0[c] != o1[c] and o0[c] is not None and o1[c] is not None]
                 if changed == ["answers"]:
                     diff = [p for p, a, b in zip(self.probes, o0["answers"], o1["answers"]) if a != b]
                     if all(probe_units(p) & self.overlay_defined for p in diff):
@@ -608,11 +619,12 @@ ALPHABET = {
             ("probe", ("base", U(yard=1))), ("def", "smoot")],
     "tiny": [("en", ("rb",), ()), ("dis", None), ("with", ("rc",), ()), ("exit",), ("def", "smoot")],
     "lean": [("en", ("ra",), ()), ("en", ("rb",), ()), ("en", ("rc",), ()), ("en", ("rd",), ()),
-             ("dis", None), ("with", ("rc",), ()), ("exit",), ("raise",),
+             ("en", ("re",), ()), ("dis", None), ("with", ("rc",), ()), ("exit",), ("raise",),
              ("probe", ("base", U(yard=1))), ("def", "smoot")],
     "full": [("en", ("ra",), ()), ("en", ("ra",), kwt(n=5)), ("en", ("rb",), ()), ("en", ("rc",), ()),
-             ("en", ("rd",), ()), ("en", ("rb", "ra"), ()), ("dis", None), ("dis", 1),
+             ("en", ("rd",), ()), ("en", ("re",), ()), ("en", ("rb", "ra"), ()), ("dis", None), ("dis", 1),
              ("with", ("ra",), ()), ("with", ("rb",), ()), ("with", ("rc",), kwt(k=3)), ("with", ("rd",), ()),
+             ("with", ("rb", "re"), ()),
              ("exit",), ("raise",), ("probe", ("base", U(yard=1))), ("def", "smoot")],
 }
 
@@ -764,12 +776,12 @@ def explore2_subtree(args):
 
 # ------------------------------------------------------------------ random long sequences
 def random_ops(rng, n):
-    names = ["ra", "rb", "rc", "rd"]
+    names = ["ra", "rb", "rc", "rd", "re"]
     ops = []
     for _ in range(n):
         x = rng.random()
         if x < 0.28:
-            cs = tuple(rng.choice(names[:3] if rng.random() < 0.85 else names) for _ in range(1 if rng.random() < 0.8 else 2))
+            cs = tuple(rng.choice(names[:3] if rng.random() < 0.8 else names) for _ in range(1 if rng.random() < 0.8 else 2))
             kw = rng.choice([(), (), kwt(n=5), kwt(k=3), kwt(n=2, k=7)])
             ops.append((rng.choice(["en", "with"]), cs, kw))
         elif x < 0.40:
@@ -835,6 +847,7 @@ def detect_quirks(ck):
         qk["F6"] = True
     steps, _ = run_sequence(W23)
     qk["F110"] = steps[-1][1]["regs"][0]["layers"] >= 3
+    STRICT_LAYERS[0] = not qk["F110"]
     steps, f7 = run_sequence(W7)
     inside, after = steps[1][0][1], steps[3][0][1]
     qk["F7"] = after == inside and after != pristine()["base"]["base:yard"]
@@ -983,7 +996,7 @@ def run(ck):
     ck.rule = ("breadth-first exhaustive: every operation sequence over the alphabets "
                + ", ".join(f"{a}({len(ALPHABET[a])} ops) to length {d}" for a, d in plan["single"])
                + " (with_exit / raise_inside only while a with-block is open), each on a fresh Fraction registry built from "
-               f"{len(UNITS) + 1} generated definition lines with a pool of contexts ra(rules) rb(redefinitions) rc(both) rd(invalid redefinition); "
+               f"{len(UNITS) + 1} generated definition lines with a pool of contexts ra(rules) rb(redefinitions) rc(both) rd(invalid redefinition: ValueError) re(invalid redefinition: AssertionError); "
                "after EVERY step the active names, len(_units.maps), len(_caches), open blocks, the shared Context objects and the answers to "
                f"{len(PROBES)} probes are compared with the Coq model inside Coq; two registries sharing the Context objects to length {plan['two']}; "
                f"{plan['random'][0]} random sequences of length {plan['random'][1]} with explicit probes. "
